@@ -74,6 +74,29 @@ def api_case(res, rng, metric, kind):
             break
 
 
+def big_case(res, rng, kind):
+    """more than one block of 16384 vertices: the per-block bookkeeping (change counts, thresholds re-read per block,
+    in_graph carried across blocks) only exists beyond that size"""
+    n = 16384 + int(rng.choice([60, 700])); k = 4
+    X = rng.standard_normal((n, 3)).astype(np.float32)
+    if kind == "csr":
+        import scipy.sparse as sp
+        X = sp.csr_matrix(X * (rng.random(X.shape) < 0.8))
+    cfg = {"tree_init": bool(rng.integers(2)), "seed": int(rng.integers(10 ** 6)), "n_iters": int(rng.choice([2, 4]))}
+    out = {}
+    for low in (True, False):
+        idx = NNDescent(X, n_neighbors=k, random_state=cfg["seed"], low_memory=low, tree_init=cfg["tree_init"],
+                        n_iters=cfg["n_iters"], max_candidates=6, n_trees=2)
+        out[low] = idx._neighbor_graph
+    case = {"kind": kind, "n": n, "k": k, "cfg": cfg}
+    res.case(("big", kind, n, tuple(sorted(cfg.items()))), True, sample=case)
+    res.count("api_big_" + kind); res.traces += 1
+    if not (np.array_equal(out[True][0], out[False][0]) and np.array_equal(out[True][1], out[False][1])):
+        nd = int(np.sum(np.any(out[True][0] != out[False][0], axis=1)))
+        res.violation("lowmem:%s:multi-block" % kind, "n=%d (> one block of 16384 vertices): %d rows differ between low_memory=True and False"
+                      % (n, nd), case)
+
+
 def run(res, tier, seed, search):
     rng = np.random.default_rng(seed + 1212)
     res.rule = ("appliers: random well-formed heaps + truthful update lists (self pairs, repeats, T in 1..16), both real appliers vs "
@@ -89,6 +112,9 @@ def run(res, tier, seed, search):
         metric, kind = COMBOS[(start + i) % len(COMBOS)]
         for r in range(reps):
             api_case(res, rng, metric, kind)
+    big_case(res, rng, "dense32")
+    if tier != "quick" or search:
+        big_case(res, rng, "csr"); big_case(res, rng, "dense32")
     numba.set_num_threads(numba.config.NUMBA_NUM_THREADS)
 
 
